@@ -38,7 +38,7 @@ def tier_bounds(tier):
     if tier == "quick":
         return dict(pools=["far4", "dup4"], pools_expensive=["dup4"], label_values=[None, 0, 1], max_batch=3, deviation_bound=1,
                     conformance_seeds=1, max_tapes_per_case=60, extra_every=3)
-    return dict(pools=["dup5", "far5"], pools_expensive=["dup5"], label_values=[None, 0, 1],
+    return dict(pools=["dup5", "far4"], pools_expensive=["dup4", "far4"], label_values=[None, 0, 1],
                 max_batch=4, deviation_bound=2, conformance_seeds=2, max_tapes_per_case=100, extra_every=2)
 
 
